@@ -90,14 +90,15 @@ U_dest ==
 KidVals(n) == {None, IntV(1), Arr(<<>>)} \cup {Arr(<<Ref(a)>>) : a \in 0..n}
                  \cup {Arr(<<Ref(a), Ref(b)>>) : a \in 1..n, b \in 1..n}
 U_kids ==
-    LET cats == {DictB(<<<<"Outlines", Dict(<<>>)>>, <<"Dests", Ref(2)>>>>)} \cup
-                (IF N <= 3 THEN {DictB(<<<<"Outlines", Dict(<<>>)>>, <<"Names", DictB(<<<<"Dests", Ref(2)>>>>)>>>>)} ELSE {})
+    \* the name tree is Names/Dests (PDF 1.2); a catalog /Dests is a PDF 1.1 dictionary of destinations (total reader)
+    LET cats == {DictB(<<<<"Outlines", Dict(<<>>)>>, <<"Names", DictB(<<<<"Dests", Ref(2)>>>>)>>>>)} \cup
+                (IF N <= 3 THEN {DictB(<<<<"Outlines", Dict(<<>>)>>, <<"Dests", Ref(2)>>>>)} ELSE {})
         node == {DictB(<<<<"Kids", k>>>>) : k \in KidVals(N)} \cup {IntV(7)}
     IN {[objs |-> <<c>> \o o, root |-> Ref(1)] : c \in cats, o \in Seqs(N - 1, node)}
 
 \* S7: the Names array of a name tree: keys and values of every kind
 U_names ==
-    LET cat   == DictB(<<<<"Outlines", Dict(<<>>)>>, <<"Dests", Ref(2)>>>>)
+    LET cat   == DictB(<<<<"Outlines", Dict(<<>>)>>, <<"Names", DictB(<<<<"Dests", Ref(2)>>>>)>>>>)
         keys  == {Str("t"), Name("Other"), IntV(1)}
         vals  == {Ref(3), Ref(0), IntV(1), Dict(<<>>), DictB(<<<<"D", Dest2>>>>), DictB(<<<<"D", Arr(<<IntV(1)>>)>>>>),
                   DictB(<<<<"D", IntV(1)>>>>)}
